@@ -296,10 +296,28 @@ def type_option(t):
     raise WireError("unsupported type %r" % (t,))
 
 
-def enc_value(t, v):
-    """encode python value v of wire type t (v3+ collection layout); None -> None"""
+def _cbytes(b, legacy):
+    if not legacy:
+        return _bytes(b)
+    b = b or b""
+    return _short(len(b)) + b
+
+
+def enc_value(t, v, version=4):
+    """encode python value v of wire type t; None -> None.  On protocol v1/v2 a top-level collection
+    uses 16-bit counts and lengths (nested collections always use the v3 layout)"""
     if v is None:
         return None
+    legacy = version < 3 and not isinstance(t, str)
+    if legacy:
+        cnt = _short
+        if t[0] in ("list", "set"):
+            items = list(v)
+            return cnt(len(items)) + b"".join(_cbytes(enc_value(t[1], x), True) for x in items)
+        if t[0] == "map":
+            items = list(v.items()) if isinstance(v, dict) else list(v)
+            return cnt(len(items)) + b"".join(_cbytes(enc_value(t[1], k), True) + _cbytes(enc_value(t[2], x), True)
+                                              for k, x in items)
     if isinstance(t, str):
         if t in ("text", "varchar", "ascii"):
             return v.encode("utf8")
@@ -358,7 +376,7 @@ def result_rows(columns, rows, ks="ks", table="t", paging_state=None, no_metadat
     out += _int(len(rows))
     for row in rows:
         for (name, t), v in zip(columns, row):
-            out += _bytes(enc_value(t, v))
+            out += _bytes(enc_value(t, v, version))
     return out
 
 
